@@ -243,8 +243,11 @@ class _Quantifier(_UnaryOperator):
 
         input_bounds = input_bounds.permute([1, 0])[None, :, :]
 
+        previous_bounds = self.neuron.bounds_table.detach().clone().reshape(-1, 2)
         self.neuron = self._create_neuron(arity=len(operand.grounding_table))
         self.func = self.neuron.func
+        if len(previous_bounds) == 1:
+            self.neuron.bounds_table = previous_bounds
         result = self.neuron.aggregate_bounds([0], self.func(input_bounds), bound)
         self.neuron.bounds_table = self.neuron.bounds_table[0]
         return result
